@@ -691,8 +691,7 @@ def check_fresh_destination(ctx: CheckContext, p: Program, r: Resolver, qualname
     if f is None:
         raise AnalysisError(f"{qualname} not found")
     flags = [a.arg for a in f.params if isinstance(f.default_of(a.arg), ast.Constant) and isinstance(f.default_of(a.arg).value, bool)]
-    if new_flag not in flags:
-        raise AnalysisError(f"{qualname}: parameter {new_flag} not found")
+    has_flag = new_flag in flags      # without the switch the import must ALWAYS start from fresh (or cleared) destinations
     me = f.pos_params[0]
     results: Dict[str, List[Tuple[dict, bool, ast.AST]]] = {}
     # destination variables: receivers of .add(...) inside the import loops; a receiver bound by `for a, b in ((x, y), ...)` stands for the tuple members
@@ -752,6 +751,23 @@ def check_fresh_destination(ctx: CheckContext, p: Program, r: Resolver, qualname
 
         def transfer(self, st, s):
             s = self.copy(s)
+            if isinstance(st, ast.Assign) and len(st.targets) > 1:
+                # dst = self._x = StreamCollection()
+                v = st.value
+                is_new = isinstance(v, ast.Call) and any(isinstance(x, ClassInfo) and x.name == "StreamCollection" for x in r.resolve_call(f, v)) and not v.args
+                flds = [t.attr for t in st.targets if isinstance(t, ast.Attribute) and isinstance(t.value, ast.Name) and t.value.id == me]
+                for fld in flds:
+                    (s["fresh"].add if is_new else s["fresh"].discard)(fld)
+                for t in st.targets:
+                    if isinstance(t, ast.Name) and flds:
+                        s["alias"][t.id] = flds[0]
+                        if t.id in dst_names:
+                            results.setdefault(t.id, []).append((dict(self.env), is_new, st))
+                return s
+            if isinstance(st, ast.Expr) and isinstance(st.value, ast.Call) and isinstance(st.value.func, ast.Attribute) and st.value.func.attr == "clear":
+                fld = self.field_of(st.value.func.value)
+                if fld is not None:
+                    s["fresh"].add(fld)          # emptied in place: as good as new for the import
             if (isinstance(st, ast.Assign) and len(st.targets) == 1) or (isinstance(st, ast.AnnAssign) and st.value is not None):
                 t, v = (st.targets[0] if isinstance(st, ast.Assign) else st.target), st.value
                 if isinstance(t, ast.Attribute) and isinstance(t.value, ast.Name) and t.value.id == me:
@@ -777,16 +793,18 @@ def check_fresh_destination(ctx: CheckContext, p: Program, r: Resolver, qualname
         raise AnalysisError(f"{f.loc}: destination collections of the sub-zone import not recognised")
     n = 0
     for dst, lst in sorted(results.items()):
-        bad = [(env, st) for env, fresh, st in lst if env[new_flag] and not fresh]
+        bad = [(env, st) for env, fresh, st in lst if (not has_flag or env[new_flag]) and not fresh]
         n += 1
         ok = not bad
         msg = ""
         if bad:
             env, st = bad[0]
-            cond = ", ".join(f"{k}={v}" for k, v in sorted(env.items()))
+            cond = ", ".join(f"{k}={v}" for k, v in sorted(env.items())) or "every call"
             msg = (f"with {cond} the destination '{dst}' ({norm_stmt(st)}) is the collection left by the previous import: "
                    f"sub-zone streams are appended again, so the zone's own targets are computed on duplicated streams")
         ctx.ob(rule, f"{f.qualname}:{dst}", f"{f.module.relpath}:{lst[0][2].lineno}", ok, msg, assignments_explored=len(lst))
+    if not has_flag:
+        return n
     # every caller (the recursive descent included) asks for fresh collections: omitted (default True), literal True, or its own flag forwarded
     default_true = isinstance(f.default_of(new_flag), ast.Constant) and f.default_of(new_flag).value is True
     pos_index = f.pos_params.index(new_flag) - 1 if new_flag in f.pos_params else None
